@@ -4,7 +4,7 @@
    NewOrderBook(os...).MatchAtSinglePrice(p) (the two entry points of keeper/swap.go:672).
    [dom_ok]: positive prices and amounts, orders not over-filled on entry (any partial fill state).
    All theorems quantify over every list of orders (any length, prices, amounts, batch ids, keys). *)
-From Comdex Require Import Lib.Base Lib.DecArith Model.AMM Proofs.AMMProofs.
+From Comdex Require Import Lib.Base Lib.DecArith Model.AMM Proofs.AMMProofs Proofs.AMMMarginal.
 From Comdex Require Model.Liquidity Model.LiquidityMatch Proofs.LiquidityMatchProofs.
 
 (* per fill, all prices and amounts: a buy pays ceil(p*a), a sell receives floor(p*a), each within
@@ -56,6 +56,38 @@ Theorem c05_bounds_single : forall os p r, dom_ok os p = true -> Forall pos_orde
   Forall wf_order (r_orders r) /\ Forall pos_order (r_orders r).
 Proof. intros os p r Hd HP H. exact (proj2 (run_single_sound os p r Hd HP H)). Qed.
 Print Assumptions c05_bounds_single.
+
+(* the drop loop of FindMatchableAmountAtSinglePrice at the MARGINAL sell tick (the last eligible sell tick, filled only
+   in part), one iteration in which the buy side keeps its last tick ([bt - ta < min bt st]); [ta :: brest, bt] = the
+   buy ticks' amounts (last tick first) and their total, [sa :: s2 :: srest, st] likewise for the sells.  With
+   k = min(buy total, sell total) - (sell total - sa) > 0 the residue left for the marginal tick: the tick is dropped
+   (the loop goes on without it) when k is worth less than one quote coin, p * k < 1, and the loop ends with
+   min(buy total, sell total) when p * k >= 1 - for every price and all amounts.  At p < 1 with a non-integer inverse:
+   k = floor(1/p) is dropped, k = ceil(1/p) is matched (Example below; harness c05MarginalRun / c05MarginalCorpus) *)
+Theorem c05_marginal_sell_tick : forall f p ta brest bt sa s2 srest st,
+  0 < p -> bt - ta < Z.min bt st -> 0 < Z.min bt st - (st - sa) ->
+  (p * (Z.min bt st - (st - sa)) < P18 ->
+   fma_loop (S f) p (ta :: brest, bt) (sa :: s2 :: srest, st) = fma_loop f p (ta :: brest, bt) (s2 :: srest, st - sa)) /\
+  (P18 <= p * (Z.min bt st - (st - sa)) ->
+   fma_loop (S f) p (ta :: brest, bt) (sa :: s2 :: srest, st) = Some (Some (Z.min bt st))).
+Proof. exact marginal_sell_tick. Qed.
+Print Assumptions c05_marginal_sell_tick.
+
+(* sells 100 @ one tick below and 50 @ p, one buy of 100 + k @ p: the matchable amount at p is 100 for
+   k = floor(1/p) (the marginal tick is dropped) and 100 + k for k = ceil(1/p), at p = 0.102, 0.3, 0.9; with the
+   residue 9 at 0.102 MatchAtSinglePrice fills 100 on both sides and conserves the base coin *)
+Example c05_marginal_sell_tick_example :
+  mg_amount 102000000000000000 101900000000000000 9 = Some (Some 100) /\
+  mg_amount 102000000000000000 101900000000000000 10 = Some (Some 110) /\
+  mg_amount 300000000000000000 290000000000000000 3 = Some (Some 100) /\
+  mg_amount 300000000000000000 290000000000000000 4 = Some (Some 104) /\
+  mg_amount 900000000000000000 890000000000000000 1 = Some (Some 100) /\
+  mg_amount 900000000000000000 890000000000000000 2 = Some (Some 102) /\
+  option_map (fun r => (map (fun o => (o_open o, o_paid o, o_recv o)) (r_orders r),
+                        holds_C05_base (mg_book 102000000000000000 101900000000000000 9) (r_orders r)))
+             (run_single_price (mg_book 102000000000000000 101900000000000000 9) 102000000000000000)
+  = Some ([(0, 100, 10); (50, 0, 0); (9, 11, 100)], true).
+Proof. repeat split; vm_compute; reflexivity. Qed.
 
 (* an order that is matched receives a strictly positive amount — unconditional *)
 Theorem c05_positive : forall os lp r, dom_ok os lp = true ->
